@@ -103,10 +103,23 @@ def _build(net):
     return H
 
 
-def _table(H):
-    """order-preserving interning of the node-id namespace shared by both views"""
+def _table(H, view="bip", intids=False):
+    """order-preserving interning of the node ids of the view: name -> N.  Default: rank of the name in the namespace shared
+    by both views.  integer_ids=True (bipartite view only): the converter numbers the sorted species 1..N and the reactions,
+    sorted by id, N+1..N+M; the interned value is that number - 1"""
+    if intids and view == "bip":
+        names = sorted(H.species) + [eid for eid, _ in sorted(H.edges.items())]
+        return {n: i for i, n in enumerate(names)}
     names = sorted(set(H.species) | set(H.edges.keys()))
     return {n: i for i, n in enumerate(names)}
+
+
+def _node_rank(H, view, intids):
+    """view node id -> N"""
+    t = _table(H, view, intids)
+    if intids and view == "bip":
+        return {i + 1: i for i in range(len(t))}
+    return t
 
 
 def _keyed_graph(G, rank=None):
@@ -131,16 +144,16 @@ def _premises(G):
     return bool(ok)
 
 
-def _impl_net(net, view, stoich):
-    return _impl_H(_build(net), view, stoich)
+def _impl_net(net, view, stoich, intids=False):
+    return _impl_H(_build(net), view, stoich, intids)
 
 
-def _impl_H(H, view, stoich):
+def _impl_H(H, view, stoich, intids=False, keep=None):
     from synkit.CRN.Topo.canon import CRNCanonicalizer
     from synkit.CRN.Topo.automorphism import CRNAutomorphism
-    rank = _table(H)
+    rank = _node_rank(H, view, intids)
     inc = view == "bip"
-    C = CRNCanonicalizer(H, include_rule=inc, include_stoich=stoich)
+    C = CRNCanonicalizer(H, include_rule=inc, include_stoich=stoich, integer_ids=intids)
     G = C.G
     log = []
     orig = C._refine
@@ -154,7 +167,10 @@ def _impl_H(H, view, stoich):
     s = C.summary()
     nodes, arcs = _keyed_graph(G, rank)
     cn, ca = _keyed_graph(s["canon_graph"])
-    A = CRNAutomorphism(H, include_rule=inc, include_stoich=stoich).summary(max_count=10 ** 9, timeout_sec=None)
+    AA = CRNAutomorphism(H, include_rule=inc, include_stoich=stoich, integer_ids=intids)
+    A = AA.summary(max_count=10 ** 9, timeout_sec=None)
+    if keep is not None:
+        keep.update(C=C, A=AA, s=s, a=A)
     return [S(nodes), S(arcs), log,
             [rank[v] for v in s["canonical_perm"]],
             C._label(G, s["canonical_perm"]),
@@ -193,25 +209,145 @@ def _impl_seq(case):
         if k > 0:
             _add_extra(H, case["nets"][k - 1], net)
         for view, st, intids in case["steps"]:
-            if intids:
-                _touch(H, view, st, True)
-            else:
-                out.append(_impl_H(H, view, st))
+            out.append(_impl_H(H, view, st, intids))
+    return out
+
+
+def _apply_op(net, op):
+    """the network value after an in-place edit of the hypergraph (pure mirror of CRNHyperGraph.remove_rxn / add_rxn /
+    remove_species(prune_orphans=False) / RXNSide.__setitem__); reactions carry explicit ids"""
+    rx = [[e, ru, [list(x) for x in l], [list(x) for x in r]] for e, ru, l, r in net["rxns"]]
+    iso = list(net.get("iso", []))
+    kind = op[0]
+    if kind == "replace":
+        _, eid, rule, l, r = op
+        rx = [x for x in rx if x[0] != eid] + [[eid, rule, [list(x) for x in l], [list(x) for x in r]]]
+    elif kind == "add":
+        _, eid, rule, l, r = op
+        rx = rx + [[eid, rule, [list(x) for x in l], [list(x) for x in r]]]
+    elif kind == "coeff":
+        _, eid, side, sp, c = op
+        for x in rx:
+            if x[0] == eid:
+                x[2 + side] = [[a, (c if a == sp else b)] for a, b in x[2 + side]]
+    elif kind == "rmsp":
+        sp = op[1]
+        for x in rx:
+            x[2] = [y for y in x[2] if y[0] != sp]
+            x[3] = [y for y in x[3] if y[0] != sp]
+        rx = [x for x in rx if x[2] or x[3]]
+        if sp not in iso:
+            iso.append(sp)
+    present = {a for x in rx for a, _ in x[2] + x[3]}
+    iso = [a for a in iso if a not in present]
+    return dict(rxns=rx, iso=iso)
+
+
+def _do_op(H, op):
+    kind = op[0]
+    if kind == "replace":
+        _, eid, rule, l, r = op
+        H.remove_rxn(eid)
+        H.add_rxn([tuple(x) for x in l], [tuple(x) for x in r], rule=rule, edge_id=eid)
+    elif kind == "add":
+        _, eid, rule, l, r = op
+        H.add_rxn([tuple(x) for x in l], [tuple(x) for x in r], rule=rule, edge_id=eid)
+    elif kind == "coeff":
+        _, eid, side, sp, c = op
+        e = H.edges[eid]
+        (e.reactants if side == 0 else e.products)[sp] = c
+    elif kind == "rmsp":
+        H.remove_species(op[1], prune_orphans=False)
+
+
+def _scribble(keep):
+    """the caller edits everything an earlier analysis handed out: the view, the canonical graph, orbit sets, permutation lists"""
+    if not keep:
+        return
+    for G in (keep["C"].G, keep["A"].G, keep["s"]["canon_graph"]):
+        try:
+            G.add_node("zz_scribble", kind="species")
+            for u, v, d in list(G.edges(data=True)):
+                d["stoich"] = 7
+                d["role"] = "product"
+            G.remove_nodes_from(list(G.nodes)[:1])
+        except Exception:
+            pass
+    for o in list(keep["s"]["orbits"]) + list(keep["a"]["orbits"]):
+        try:
+            o.add("zz_scribble")
+        except Exception:
+            pass
+    for p in keep["s"]["sample_permutations"]:
+        p.reverse()
+    keep["s"]["canonical_perm"].reverse()
+
+
+def _run_history(case, analyse):
+    """ONE hypergraph object; ops = analyses (each on fresh analyzers), in-place edits of the hypergraph, edits of earlier
+    results by the caller, repeated reads of an earlier analyzer.  analyse(H, net_value, view, st, intids, keep) is called for
+    every analysis; returns the list of its results"""
+    net = case["nets"][0]
+    H = _build(net)
+    keep = {}
+    out = []
+    for op in case["ops"]:
+        if op[0] == "an":
+            keep = {}
+            out.append(analyse(H, net, op[1], op[2], op[3], keep))
+        elif op[0] == "scribble":
+            _scribble(keep)
+        elif op[0] == "reuse":
+            if keep:
+                keep["C"].summary()
+                keep["C"].orbits()
+                keep["A"].summary(max_count=10 ** 9, timeout_sec=None)
+        else:
+            _do_op(H, op)
+            net = _apply_op(net, op)
+    return out
+
+
+def _history_nets(case):
+    """(network value, view, stoich, intids) of every analysis of a history"""
+    net = case["nets"][0]
+    out = []
+    for op in case["ops"]:
+        if op[0] == "an":
+            out.append((net, op[1], op[2], op[3]))
+        elif op[0] not in ("scribble", "reuse"):
+            net = _apply_op(net, op)
+    return out
+
+
+def _impl_attrs(case):
+    """non-default attribute selections / WL options: outside the model; the observable is informative only"""
+    from synkit.CRN.Topo.canon import CRNCanonicalizer
+    at = case["attrs"]
+    out = []
+    for net in case["nets"]:
+        C = CRNCanonicalizer(_build(net), include_rule=case["view"] == "bip", include_stoich=case["stoich"],
+                             node_attr_keys=list(at.get("nk", ("kind",))), edge_attr_keys=list(at.get("ek", ("role", "stoich"))))
+        out.append(C.summary()["automorphism_count"])
     return out
 
 
 def impl(case):
     _saturate()
+    if case.get("attrs"):
+        return _impl_attrs(case)
+    if case.get("ops"):
+        return _run_history(case, lambda H, net, view, st, intids, keep: _impl_H(H, view, st, intids, keep))
     if case.get("steps"):
         return _impl_seq(case)
-    return [_impl_net(n, case["view"], case["stoich"]) for n in case["nets"]]
+    return [_impl_net(n, case["view"], case["stoich"], case.get("intids", False)) for n in case["nets"]]
 
 
 # ------------------------------------------------------------------ model encoder
 
-def _coq_net(net):
+def _coq_net(net, view="bip", intids=False):
     H = _build(net)
-    rank = _table(H)
+    rank = _table(H, view, intids)
     sp = clist([cN(rank[s]) for s in sorted(H.species)])
     rx = []
     for eid, e in H.edges.items():
@@ -222,11 +358,19 @@ def _coq_net(net):
 
 
 def coq_case(case):
-    if case.get("steps"):
-        terms = ["run_net %s %s %s" % (cbool(view == "bip"), cbool(st), _coq_net(net))
-                 for net in case["nets"] for view, st, intids in case["steps"] if not intids]
+    if case.get("attrs"):
+        return None          # non-default attribute keys / WL options: outside the model, oracle only
+    if case.get("ops"):
+        terms = ["run_net %s %s %s" % (cbool(view == "bip"), cbool(st), _coq_net(net, view, intids))
+                 for net, view, st, intids in _history_nets(case)]
         return "L %s" % clist(terms)
-    return "run_case %s %s %s" % (cbool(case["view"] == "bip"), cbool(case["stoich"]), clist([_coq_net(n) for n in case["nets"]]))
+    if case.get("steps"):
+        terms = ["run_net %s %s %s" % (cbool(view == "bip"), cbool(st), _coq_net(net, view, intids))
+                 for net in case["nets"] for view, st, intids in case["steps"]]
+        return "L %s" % clist(terms)
+    ii = case.get("intids", False)
+    return "run_case %s %s %s" % (cbool(case["view"] == "bip"), cbool(case["stoich"]),
+                                  clist([_coq_net(n, case["view"], ii) for n in case["nets"]]))
 
 
 # ------------------------------------------------------------------ property oracle (independent reference)
@@ -330,18 +474,22 @@ def _collides(net):
 def _answers(H, view, st, intids):
     from synkit.CRN.Topo.canon import CRNCanonicalizer
     from synkit.CRN.Topo.automorphism import CRNAutomorphism
+    from synkit.CRN.Topo.wl_canon import WLCanonicalizer
     inc = view == "bip"
     C = CRNCanonicalizer(H, include_rule=inc, include_stoich=st, integer_ids=intids)
     s = C.summary()
     A = CRNAutomorphism(H, include_rule=inc, include_stoich=st, integer_ids=intids).summary(max_count=10 ** 9, timeout_sec=None)
     key = lambda G: (sorted((repr(n), repr(sorted(d.items(), key=repr))) for n, d in G.nodes(data=True)),
                      sorted((repr(u), repr(v), repr(sorted(d.items(), key=repr))) for u, v, d in G.edges(data=True)))
+    W = WLCanonicalizer(H, include_rule=inc, include_stoich=st, integer_ids=intids).summary()
     return dict(view=key(C.G), canon=key(s["canon_graph"]), count=s["automorphism_count"],
                 orbits=sorted(sorted(map(repr, o)) for o in s["orbits"]),
-                vf2_count=A["automorphism_count"], vf2_orbits=sorted(sorted(map(repr, o)) for o in A["orbits"]))
+                vf2_count=A["automorphism_count"], vf2_orbits=sorted(sorted(map(repr, o)) for o in A["orbits"]),
+                wl_canon=key(W["canon_graph"]), wl_orbits=sorted(sorted(map(repr, o)) for o in W["orbits"]),
+                wl_count=W["automorphism_count"])
 
 
-def _api_consistency(H, inc, st, s, A, auts, where):
+def _api_consistency(H, inc, st, s, A, auts, where, ckw=None, akw=None, auts_v=None):
     """graph()/orbits()/has_nontrivial_automorphism()/canonical() of the canonicaliser and iter()/
     has_nontrivial_automorphism()/detect_automorphisms() of the VF2 tool against summary() and the brute-force reference"""
     from synkit.CRN.Topo.canon import CRNCanonicalizer, canonical
@@ -351,7 +499,10 @@ def _api_consistency(H, inc, st, s, A, auts, where):
     def bad(what, got, exp):
         out.append(dict(clause="api-consistency", detail="%s = %r, expected %r: %s" % (what, got, exp, where)))
 
-    C2 = CRNCanonicalizer(H, include_rule=inc, include_stoich=st)
+    ckw = dict(ckw or {})
+    akw = dict(akw or {})
+    auts_v = auts if auts_v is None else auts_v
+    C2 = CRNCanonicalizer(H, include_rule=inc, include_stoich=st, **ckw)
     kg = _keyed_graph(C2.graph())
     if kg != _keyed_graph(s["canon_graph"]):
         bad("CRNCanonicalizer.graph()", kg, _keyed_graph(s["canon_graph"]))
@@ -363,19 +514,19 @@ def _api_consistency(H, inc, st, s, A, auts, where):
     s2 = C2.summary()          # a second analysis on the same canonicaliser object
     if s2["automorphism_count"] != s["automorphism_count"] or _keyed_graph(s2["canon_graph"]) != _keyed_graph(s["canon_graph"]):
         bad("second CRNCanonicalizer.summary() on one object", s2["automorphism_count"], s["automorphism_count"])
-    C3 = canonical(H, include_rule=inc, include_stoich=st)
+    C3 = canonical(H, include_rule=inc, include_stoich=st, **ckw)
     if _keyed_graph(C3.graph()) != _keyed_graph(s["canon_graph"]):
         bad("canonical(...).graph()", _keyed_graph(C3.graph()), _keyed_graph(s["canon_graph"]))
-    A2 = CRNAutomorphism(H, include_rule=inc, include_stoich=st)
+    A2 = CRNAutomorphism(H, include_rule=inc, include_stoich=st, **akw)
     maps = list(A2.iter())
-    ref = {tuple(sorted(m.items(), key=repr)) for m in auts}
+    ref = {tuple(sorted(m.items(), key=repr)) for m in auts_v}
     got = {tuple(sorted(m.items(), key=repr)) for m in maps}
-    if len(maps) != len(auts) or got != ref:
-        bad("CRNAutomorphism.iter() mappings", len(maps), len(auts))
-    if A2.has_nontrivial_automorphism(timeout_sec=None) != (len(auts) > 1):
-        bad("CRNAutomorphism.has_nontrivial_automorphism()", A2.has_nontrivial_automorphism(timeout_sec=None), len(auts) > 1)
-    D = detect_automorphisms(H, include_rule=inc, include_stoich=st, max_count=None, timeout_sec=None)
-    if D["automorphism_count"] != len(auts) or {frozenset(o) for o in D["orbits"]} != {frozenset(o) for o in A["orbits"]}:
+    if len(maps) != len(auts_v) or got != ref:
+        bad("CRNAutomorphism.iter() mappings", len(maps), len(auts_v))
+    if A2.has_nontrivial_automorphism(timeout_sec=None) != (len(auts_v) > 1):
+        bad("CRNAutomorphism.has_nontrivial_automorphism()", A2.has_nontrivial_automorphism(timeout_sec=None), len(auts_v) > 1)
+    D = detect_automorphisms(H, include_rule=inc, include_stoich=st, max_count=None, timeout_sec=None, **akw)
+    if D["automorphism_count"] != len(auts_v) or {frozenset(o) for o in D["orbits"]} != {frozenset(o) for o in A["orbits"]}:
         bad("detect_automorphisms()", D["automorphism_count"], len(auts))
     return out[:1]
 
@@ -400,29 +551,84 @@ def _oracle_seq(case):
     return fails
 
 
+def _oracle_hist(case):
+    """every analysis of a history (fresh analyzers on the shared, edited hypergraph object; earlier results scribbled on by the
+    caller; earlier analyzers read again) must answer exactly what analyzers on a freshly built network answer"""
+    fails = []
+
+    def analyse(H, net, view, st, intids, keep):
+        got = _answers(H, view, st, intids)
+        ref = _answers(_build(net), view, st, intids)
+        bad = [f for f in got if got[f] != ref[f]]
+        if bad and not fails:
+            fails.append(dict(clause="reuse-stale", detail="analysis (%s, stoich=%s, integer_ids=%s) inside the history %r on ONE hypergraph object, "
+                              "network value now [%s], differs from a freshly built network in %s: shared %r, fresh %r"
+                              % (view, st, intids, case["ops"], _fmt_net(net), bad, {f: got[f] for f in bad[:1]}, {f: ref[f] for f in bad[:1]})))
+        # hand the caller something to scribble on / re-read
+        from synkit.CRN.Topo.canon import CRNCanonicalizer
+        from synkit.CRN.Topo.automorphism import CRNAutomorphism
+        inc = view == "bip"
+        C = CRNCanonicalizer(H, include_rule=inc, include_stoich=st, integer_ids=intids)
+        A = CRNAutomorphism(H, include_rule=inc, include_stoich=st, integer_ids=intids)
+        keep.update(C=C, A=A, s=C.summary(), a=A.summary(max_count=10 ** 9, timeout_sec=None))
+        return None
+
+    _run_history(case, analyse)
+    return fails
+
+
 def oracle(case):
     _saturate()
+    if case.get("ops"):
+        fl = _oracle_hist(case)
+        if fl:
+            return fl
+        seen = set()
+        for net, view, st, intids in _history_nets(case):
+            k = repr((net, view, st, intids))
+            if k in seen:
+                continue
+            seen.add(k)
+            fl = oracle(dict(case, ops=None, nets=[net], rel=["base"], view=view, stoich=st, intids=intids))
+            if fl:
+                return fl
+        return []
     if case.get("steps"):
         fl = _oracle_seq(case)
         if fl:
             return fl
         # the per-network clauses on every configuration of the sequence
         for view, st, intids in case["steps"]:
-            if not intids:
-                fl = oracle(dict(case, steps=None, view=view, stoich=st))
-                if fl:
-                    return fl
+            fl = oracle(dict(case, steps=None, view=view, stoich=st, intids=intids))
+            if fl:
+                return fl
         return []
     from synkit.CRN.Topo.canon import CRNCanonicalizer
     from synkit.CRN.Topo.automorphism import CRNAutomorphism
     from synkit.CRN.Topo.wl_canon import WLCanonicalizer
     inc, st = case["view"] == "bip", case["stoich"]
+    intids = bool(case.get("intids", False))
+    at = case.get("attrs") or {}
+    nk = tuple(at.get("nk", ("kind",)))
+    ek = tuple(at.get("ek", ("role", "stoich")))
+    wlkw = dict(at.get("wl", {}))
+    ckw = dict(integer_ids=intids)
+    akw = dict(integer_ids=intids)
+    if at:
+        ckw.update(node_attr_keys=list(nk), edge_attr_keys=list(ek))
+        akw.update(node_attr_keys=list(nk))
+    fz = CRNCanonicalizer._freeze
+    nsel = lambda d: repr(tuple(fz(d.get(k)) for k in nk))
+    esel = lambda d: repr(tuple(sorted((k, repr(fz(d.get(k)))) for k in ek)))
+    edef = lambda d: repr((d.get("role"), d.get("stoich")))
+    ksel = lambda G_: (sorted([repr(n), nsel(d)] for n, d in G_.nodes(data=True)),
+                       sorted([repr(u), repr(v), esel(d)] for u, v, d in G_.edges(data=True)))
     fails = []
-    cfg = "%s/%s" % (case["view"], "stoich" if st else "nostoich")
+    cfg = "%s/%s%s%s" % (case["view"], "stoich" if st else "nostoich", "/integer_ids" if intids else "", ("/%r" % at) if at else "")
     data = []
     for i, net in enumerate(case["nets"]):
         H = _build(net)
-        C = CRNCanonicalizer(H, include_rule=inc, include_stoich=st)
+        C = CRNCanonicalizer(H, include_rule=inc, include_stoich=st, **ckw)
         G = C.G
         s = C.summary()
         Gc = s["canon_graph"]
@@ -431,7 +637,8 @@ def oracle(case):
         full_n = lambda d: tuple(sorted((k, repr(v)) for k, v in d.items()))
         if not _isos(G, Gc, full_n, full_n, limit=1):
             fails.append(dict(clause="canon-iso", detail="canonical graph not isomorphic to its view: " + where))
-        auts = _isos(G, G, _nk, _ek)
+        auts = _isos(G, G, nsel, esel)
+        auts_v = auts if not at else _isos(G, G, nsel, edef)       # the VF2 tool always matches edges on (role, stoich)
         # (2) automorphism count / orbits of the canonicaliser
         if s["automorphism_count"] != len(auts):
             fails.append(dict(clause="aut-count", detail="canonicaliser reports %d automorphisms, the view has %d: %s"
@@ -441,15 +648,16 @@ def oracle(case):
             fails.append(dict(clause="orbits", detail="canonicaliser orbits %r, true orbits %r: %s"
                               % (sorted(map(sorted, s["orbits"])), sorted(map(sorted, ref_orb)), where)))
         # (3) the VF2 tool
-        A = CRNAutomorphism(H, include_rule=inc, include_stoich=st).summary(max_count=10 ** 9, timeout_sec=None)
-        if A["automorphism_count"] != len(auts):
+        A = CRNAutomorphism(H, include_rule=inc, include_stoich=st, **akw).summary(max_count=10 ** 9, timeout_sec=None)
+        ref_orb_v = ref_orb if not at else _orbits(list(G.nodes), auts_v)
+        if A["automorphism_count"] != len(auts_v):
             fails.append(dict(clause="vf2-count", detail="CRNAutomorphism reports %d automorphisms, the view has %d structure-preserving self-maps: %s"
-                              % (A["automorphism_count"], len(auts), where)))
-        if {frozenset(o) for o in A["orbits"]} != ref_orb:
+                              % (A["automorphism_count"], len(auts_v), where)))
+        if {frozenset(o) for o in A["orbits"]} != ref_orb_v:
             fails.append(dict(clause="vf2-orbits", detail="CRNAutomorphism orbits %r, true orbits %r: %s"
                               % (sorted(map(sorted, A["orbits"])), sorted(map(sorted, ref_orb)), where)))
         # (4) WL canonicaliser: approximate by its documentation; only the sound half is demanded
-        W = WLCanonicalizer(H, include_rule=inc, include_stoich=st).summary()
+        W = WLCanonicalizer(H, include_rule=inc, include_stoich=st, **ckw, **wlkw).summary()
         if not _isos(G, W["canon_graph"], full_n, full_n, limit=1):
             fails.append(dict(clause="wl-iso", detail="WL canonical graph not isomorphic to its view: " + where))
         wl_cells = [set(o) for o in W["orbits"]]
@@ -460,14 +668,16 @@ def oracle(case):
                 break
         # (4b) the other public entry points must tell the same story as summary() (not for the bulk exhaustive family)
         if case.get("kind") != "exh3":
-            fails += _api_consistency(H, inc, st, s, A, auts, where)
-        data.append((G, _keyed_graph(Gc), where))
+            fails += _api_consistency(H, inc, st, s, A, auts, where, ckw, akw, auts_v)
+        data.append((G, ksel(Gc) if at else _keyed_graph(Gc), where))
     # (5) identical canonical graphs exactly for isomorphic views; declared variants must be identical
     collide = any(_collides(n) for n in case["nets"])
     for i in range(len(data)):
         for j in range(i + 1, len(data)):
             same = data[i][1] == data[j][1]
-            iso = bool(_isos(data[i][0], data[j][0], _nk, _ek, limit=1))
+            iso = bool(_isos(data[i][0], data[j][0], nsel, esel, limit=1))
+            if "label" in nk:
+                continue            # labels are names: renaming is not an isomorphism on this selection
             if i == 0 and case["rel"][j] == "variant" and not same:
                 key = "C18:view-id-collision" if collide else None
                 fails.append(dict(clause="canon-invariant", key=key,
@@ -488,7 +698,7 @@ def oracle(case):
 def shrink(case, fl):
     """drop nets (keeping net 0) and then reactions while the same clause keeps failing"""
     clause = fl.get("clause")
-    if case.get("steps"):
+    if case.get("steps") or case.get("ops"):
         return case
 
     def bad(c):
@@ -521,6 +731,10 @@ def shrink(case, fl):
 
 
 def neighbours(case, rng):
+    if case.get("ops"):
+        ans = [op for op in case["ops"] if op[0] == "an"]
+        return [dict(case, ops=[op for op in case["ops"] if op[0] not in ("scribble", "reuse")], name="no-scribble"),
+                dict(case, ops=ans[-1:], name="last-analysis-only")]
     if case.get("steps"):
         return [dict(case, steps=[stp], name="single-step") for stp in case["steps"]] + \
                [dict(case, steps=list(reversed(case["steps"])), name="reversed-steps")]
@@ -644,8 +858,13 @@ def _tweak(rxs, rng):
 CONFIGS = [("bip", True), ("bip", False), ("sp", True)]
 
 
-def _case(kind, view, st, nets, rel):
-    return dict(kind=kind, view=view, stoich=st, nets=nets, rel=rel)
+def _case(kind, view, st, nets, rel, intids=False, attrs=None):
+    c = dict(kind=kind, view=view, stoich=st, nets=nets, rel=rel)
+    if intids:
+        c["intids"] = True
+    if attrs:
+        c["attrs"] = attrs
+    return c
 
 
 def _variant(rxs, rng, names_from, names_to, rules=("r", "q", "R1"), explicit_ids=False, iso=()):
@@ -760,7 +979,7 @@ def _ring_cases(rng, sizes, big_forms=("uni", "pcat"), more=4):
                 if n >= 5 or form == "pcat":
                     # symmetric branching points with several equal-size cells below them: many renamings, so that every
                     # order of the names relative to each other and to the generated reaction ids occurs
-                    for _ in range(more):
+                    for _ in range(more if n <= 5 else 1):
                         nets.append(_variant(rxs, rng, sp, _names(rng, len(sp)), explicit_ids=rng.random() < 0.3))
                         rel.append("variant")
                 # the same skeleton with one / two coefficients raised: differ only in stoichiometry
@@ -916,12 +1135,181 @@ def _long_cases(rng):
     return out
 
 
+def _hist_cases(rng, nrand):
+    """histories on ONE hypergraph object: analyses under changing options, in-place edits that keep the number of reactions and
+    species (a reaction replaced under its old id, a coefficient edited in place, a species removed from all reactions but kept),
+    edits that change them, results of earlier analyses edited by the caller, earlier analyzers read again"""
+    A = lambda view="bip", st=True, ii=False: ["an", view, st, ii]
+    base = [["e1", "r", [["A", 2], ["B", 1]], [["C", 1]]], ["e2", "r", [["C", 1]], [["A", 1]]]]
+    sym = [["e1", "r", [["A", 1]], [["C", 1]]], ["e2", "r", [["B", 1]], [["C", 1]]]]
+    scripts = [
+        (base, [A(), ["replace", "e1", "r", [["A", 1], ["B", 1]], [["C", 2]]], A(), A("bip", False), A("sp")]),
+        (base, [A("bip", False), ["coeff", "e1", 0, "A", 1], A("bip", False), A(), ["coeff", "e1", 0, "A", 3], A(), A("sp")]),
+        (base, [A(), ["rmsp", "B"], A(), A("sp"), ["add", "e3", "q", [["B", 1]], [["A", 1]]], A(), A("sp")]),
+        (sym, [A(), ["coeff", "e2", 0, "B", 2], A(), ["coeff", "e2", 0, "B", 1], A(), ["replace", "e2", "r", [["C", 1]], [["B", 1]]], A(), A("sp")]),
+        (sym, [A(), ["scribble"], A(), ["scribble"], A("sp"), ["scribble"], A("sp"), A("bip", True, True), ["scribble"], A("bip", True, True)]),
+        (sym, [A(), ["reuse"], ["replace", "e1", "q", [["A", 1]], [["C", 1]]], ["reuse"], A(), ["rmsp", "C"], ["reuse"], A(), A("sp")]),
+        (base, [A("bip", True, True), ["replace", "e2", "r", [["C", 1]], [["B", 1]]], A("bip", True, True), A("bip", False, True), A()]),
+        (sym, [A("sp"), ["replace", "e1", "r", [["C", 1]], [["A", 1]]], A("sp"), ["rmsp", "A"], A("sp"), A()]),
+        ([["e1", "r", [["A", 1]], [["A", 1]]]], [A(), A("sp"), ["coeff", "e1", 1, "A", 2], A(), A("sp"), ["rmsp", "A"], A(), A("sp")]),
+    ]
+    out = []
+    for rx, ops in scripts:
+        out.append(dict(kind="hist", view="bip", stoich=True, nets=[dict(rxns=rx, iso=[])], rel=["base"], ops=ops))
+    for _ in range(nrand):
+        sp = NAME_POOLS[0][:rng.randint(2, 4)]
+        rxs = _rand_rxs(rng, sp, rng.randint(2, 3), [1, 2, 2, 3])
+        net = dict(rxns=[["e%d" % (k + 1), "r", [list(x) for x in l], [list(x) for x in r]] for k, (l, r) in enumerate(rxs)], iso=[])
+        ops = [A(rng.choice(["bip", "bip", "sp"]), rng.random() < 0.6, rng.random() < 0.2)]
+        cur = net
+        for _ in range(rng.randint(2, 4)):
+            kind = rng.choice(["replace", "coeff", "coeff", "rmsp", "scribble", "reuse", "add"])
+            op = None
+            if kind == "replace" and cur["rxns"]:
+                l, r = _rand_rxs(rng, sp, 1, [1, 2, 3])[0]
+                op = ["replace", rng.choice(cur["rxns"])[0], rng.choice(["r", "q"]), [list(x) for x in l], [list(x) for x in r]]
+            elif kind == "add":
+                l, r = _rand_rxs(rng, sp, 1, [1, 2, 3])[0]
+                op = ["add", "e%d" % (10 + len(ops)), "r", [list(x) for x in l], [list(x) for x in r]]
+            elif kind == "coeff":
+                cands = [(x[0], side, a) for x in cur["rxns"] for side in (0, 1) for a, _ in x[2 + side]]
+                if cands:
+                    e, side, a = rng.choice(cands)
+                    op = ["coeff", e, side, a, rng.choice([1, 2, 3, 10])]
+            elif kind == "rmsp":
+                present = sorted({a for x in cur["rxns"] for a, _ in x[2] + x[3]})
+                if present:
+                    op = ["rmsp", rng.choice(present)]
+            elif kind in ("scribble", "reuse"):
+                op = [kind]
+            if op is None:
+                continue
+            ops.append(op)
+            if op[0] not in ("scribble", "reuse"):
+                cur = _apply_op(cur, op)
+            ops.append(A(rng.choice(["bip", "bip", "sp"]), rng.random() < 0.6, rng.random() < 0.2))
+        out.append(dict(kind="hist", view="bip", stoich=True, nets=[net], rel=["base"], ops=ops))
+    return out
+
+
+def _degenerate_cases(rng):
+    """empty network, a single (isolated) species, null steps A>>A, falsy / odd species labels, empty sides, large coefficients"""
+    fam = [
+        ([], []),                                                               # empty network
+        ([], ["A"]),                                                            # one isolated species
+        ([], ["A", "B"]),
+        ([((("A", 1),), (("A", 1),))], []),                                     # null step
+        ([((("A", 2),), (("A", 1),))], []),
+        ([((("A", 1),), (("A", 1),)), ((("B", 1),), (("B", 1),))], []),
+        ([((("", 1),), (("0", 2),))], []),                                      # empty-string and "0" labels
+        ([((("0", 1), ("", 1)), ((" ", 1),)), (((" ", 1),), (("0", 1), ("", 1)))], ["None"]),
+        ([((), (("A", 1),))], []),                                              # empty side
+        ([((("A", 1),), ())], ["B"]),
+        ([((("A", 100),), (("B", 12),)), ((("B", 12),), (("A", 100),))], []),   # coefficients with 2-3 digits
+        ([((("A", 1),), (("B", 1),)), ((("A", 1),), (("B", 1),)), ((("A", 1),), (("B", 1),))], []),   # triple reaction
+    ]
+    out = []
+    for rxs, iso in fam:
+        sp = sorted({s for l, r in rxs for s, _ in l + r} | set(iso))
+        for view, st in CONFIGS:
+            nets = [_net_of(rxs, iso=iso)]
+            rel = ["base"]
+            if sp:
+                for _ in range(2):
+                    nets.append(_variant(rxs, rng, sp, _names(rng, len(sp)), explicit_ids=rng.random() < 0.5, iso=iso))
+                    rel.append("variant")
+            out.append(_case("degenerate", view, st, nets, rel))
+        out.append(_case("degenerate", "bip", True, [_net_of(rxs, iso=iso)], ["base"], intids=True))
+    return out
+
+
+def _intids_cases(rng):
+    """integer_ids=True on the bipartite view (species 1..N in sorted order, reactions N+1.. sorted by id): a renaming of the
+    default view; with >= 10 nodes the numeric order of the ids differs from the string order of the names"""
+    out = []
+    for n, form in ((3, "pcat"), (5, "uni"), (4, "rev"), (6, "uni")):
+        sp, rxs = _ring(n, form)
+        nets = [_net_of(rxs), _variant(rxs, rng, sp, _names(rng, len(sp))), _variant(rxs, rng, sp, _names(rng, len(sp)), explicit_ids=True)]
+        out.append(_case("intids", "bip", True, nets, ["base", "variant", "variant"], intids=True))
+    sp, rxs = _ring(11, "uni")
+    out.append(_case("intids", "bip", True, [_net_of(rxs), _variant(rxs, rng, sp, _names(rng, len(sp)))], ["base", "variant"], intids=True))
+    for _ in range(12):
+        c = _random_case(rng, "bip", rng.random() < 0.7)
+        c["kind"] = "intids"
+        c["intids"] = True
+        out.append(c)
+    for m, vec in ((2, (1, 2)), (3, (1, 1, 2))):
+        sp = ["A%d" % i for i in range(m)] + ["C"]
+        base = [(((sp[i], vec[i]),), (("C", 1),)) for i in range(m)]
+        out.append(_case("intids", "bip", True, [_net_of(base), _variant(base, rng, sp, _names(rng, len(sp)))], ["base", "variant"], intids=True))
+    return out
+
+
+ATTR_SELECTIONS = [
+    dict(nk=[], ek=["role", "stoich"]),
+    dict(nk=["kind"], ek=[]),
+    dict(nk=["kind"], ek=["role"]),
+    dict(nk=["kind"], ek=["stoich"]),
+    dict(nk=["kind"], ek=["stoich", "role"]),
+    dict(nk=["bipartite"], ek=["role", "stoich"]),
+    dict(nk=["kind", "bipartite"], ek=["role", "stoich", "order"]),
+    dict(nk=["kind", "label"], ek=["role", "stoich"]),
+    dict(nk=["kind", "mol"], ek=["role", "stoich", "absent"]),
+    dict(nk=["kind"], ek=["role", "stoich"], wl=dict(n_iter=1)),
+    dict(nk=["kind"], ek=["role", "stoich"], wl=dict(include_in_neighbors=False)),
+    dict(nk=["kind"], ek=["role", "stoich"], wl=dict(include_out_neighbors=False, estimate_automorphisms=False, digest_size=4)),
+]
+ATTR_SELECTIONS_SP = [
+    dict(nk=["kind"], ek=["stoich_r", "stoich_p"]),
+    dict(nk=["kind"], ek=["stoich_p"]),
+    dict(nk=[], ek=[]),
+]
+
+
+def _attr_cases(rng):
+    """non-default node / edge attribute selections (permuted, reduced, extended, with absent attributes) and WL options:
+    judged by the oracle with the self-maps that preserve the SELECTED attributes"""
+    out = []
+    fams = []
+    sp, rxs = _ring(4, "uni", [2, 1, 1, 1])
+    fams.append((sp, rxs))
+    sp, rxs = _ring(3, "pcat")
+    fams.append((sp, rxs))
+    fams.append((["A", "B", "C"], [((("A", 2),), (("C", 1),)), ((("B", 1),), (("C", 1),))]))
+    fams.append((["A", "B", "X"], [((("A", 1), ("X", 1)), (("B", 1), ("X", 1))), ((("B", 2),), (("A", 1),))]))
+    for k, (sp, rxs) in enumerate(fams):
+        nets = [_net_of(rxs), _variant(rxs, rng, sp, _names(rng, len(sp))), _variant(_tweak(rxs, rng), rng, sp, sp)]
+        rel = ["base", "variant", "other"]
+        for at in ATTR_SELECTIONS:
+            out.append(_case("attrs", "bip", (k % 2 == 0) or ("stoich" in at["ek"]), nets, rel, attrs=at))
+        for at in ATTR_SELECTIONS_SP:
+            out.append(_case("attrs", "sp", True, nets, rel, attrs=at))
+    return out
+
+
+def _big_cases(rng, sizes):
+    """chains of n reactions (rigid: one refinement, no branching) with three-digit ids"""
+    out = []
+    for n in sizes:
+        sp = ["S%d" % i for i in range(n + 1)]
+        chain = [(((sp[i], 1),), ((sp[i + 1], 1 + (i % 7 == 3)),)) for i in range(n)]
+        for view, st, ii in (("bip", True, False), ("sp", True, False), ("bip", True, True)):
+            nets = [_net_of(chain), _variant(chain, rng, sp, ["k%03d" % j for j in rng.sample(range(900), len(sp))])]
+            out.append(_case("big", view, st, nets, ["base", "variant"], intids=ii))
+    return out
+
+
 def gen_cases(tier, rng):
     cases = []
     # exhaustive small scope: both tiers
-    for imgs in _exhaustive3():
+    for imgs0 in _exhaustive3():
         for view, st in CONFIGS:
             nets, rel = [], []
+            imgs = imgs0
+            if tier == "quick" and (view, st) != ("bip", True) and len(imgs0) > 3:
+                # quick tier: all permuted copies in the bipartite+stoichiometry configuration, the class representative and
+                # two of its permuted copies in the two other configurations (thorough: all copies everywhere)
+                imgs = [imgs0[0]] + rng.sample(imgs0[1:], 2)
             for k, im in enumerate(imgs):
                 order = list(im) if k % 2 == 0 else list(reversed(im))       # also regenerates the ids in another order
                 nets.append(_net_of(order))
@@ -932,9 +1320,14 @@ def gen_cases(tier, rng):
     cases += _special_cases(rng)
     cases += _collision_cases()
     cases += _long_cases(rng)
-    cases += _seq_cases(rng, 40 if tier == "quick" else 400)
+    cases += _degenerate_cases(rng)
+    cases += _intids_cases(rng)
+    cases += _attr_cases(rng)
+    cases += _hist_cases(rng, 30 if tier == "quick" else 300)
+    cases += _big_cases(rng, [30] if tier == "quick" else [30, 120])
+    cases += _seq_cases(rng, 24 if tier == "quick" else 400)
     if tier == "quick":
-        cases += _ring_cases(rng, [2, 3, 4, 5, 6])
+        cases += _ring_cases(rng, [2, 3, 4, 5, 6], more=3)
         cases += _star_cases(rng, [2, 3])
         cases += _digraph_cases(rng, 150)
         nrand, msp, mrx = 360, 6, 5
